@@ -123,8 +123,18 @@ func (value Value) Compare(other Value) int {
 			return -1
 		} else if value.Float > other.Float {
 			return 1
-		} else {
+		} else if value.Float == other.Float {
 			return 0
+		}
+		// At least one of the values is NaN, which is unordered with respect to everything.
+		// To keep the ordering total, NaN is equal to NaN and sorts before every number.
+		valueIsNaN, otherIsNaN := math.IsNaN(value.Float), math.IsNaN(other.Float)
+		if valueIsNaN && otherIsNaN {
+			return 0
+		} else if valueIsNaN {
+			return -1
+		} else {
+			return 1
 		}
 
 	case TypeIDBoolean:
